@@ -85,12 +85,6 @@ def ensure(config="default", repo=REPO, work=WORK, quiet=False):
         shutil.rmtree(out, ignore_errors=True)
         os.makedirs(out)
         target = os.path.join(TARGET_BASE, "target-" + config if config != "default" else "target")
-        for fp in glob.glob(os.path.join(target, "debug", ".fingerprint", "foyer*")):
-            # only the workspace members (not foyer-intrusive-collections / foyer-bytesize from the registry)
-            base = os.path.basename(fp)
-            if base.startswith(("foyer-intrusive", "foyer-bytesize")):
-                continue
-            shutil.rmtree(fp, ignore_errors=True)
         env = dict(os.environ)
         env.update({
             "LD_LIBRARY_PATH": sysroot() + "/lib",
@@ -107,7 +101,19 @@ def ensure(config="default", repo=REPO, work=WORK, quiet=False):
             cmd += ["-p", p]
         cmd += CONFIGS[config]
         t = time.time()
-        r = subprocess.run(cmd, cwd=repo, env=env, stdout=subprocess.PIPE, stderr=subprocess.STDOUT, text=True)
+        # the target directory is shared between /repo and scratch copies (dependencies are built once): one cargo run at a time
+        os.makedirs(TARGET_BASE, exist_ok=True)
+        glock = open(os.path.join(TARGET_BASE, "cargo.%s.lock" % config), "w")
+        fcntl.flock(glock, fcntl.LOCK_EX)
+        try:
+            for fp in glob.glob(os.path.join(target, "debug", ".fingerprint", "foyer*")):
+                base = os.path.basename(fp)
+                if not base.startswith(("foyer-intrusive", "foyer-bytesize")):
+                    shutil.rmtree(fp, ignore_errors=True)
+            r = subprocess.run(cmd, cwd=repo, env=env, stdout=subprocess.PIPE, stderr=subprocess.STDOUT, text=True)
+        finally:
+            fcntl.flock(glock, fcntl.LOCK_UN)
+            glock.close()
         if r.returncode != 0:
             sys.stderr.write(r.stdout[-6000:])
             raise SystemExit("dump: `cargo check` of %s failed (config %s) — the tree does not build" % (repo, config))
